@@ -8,6 +8,7 @@ import numpy as np
 from numpy.polynomial import chebyshev as C
 from numpy.polynomial import polynomial as P
 
+import gen_poly
 import vlib
 
 EXPLANATION = (
@@ -591,7 +592,20 @@ def run(ctx):
     for name in ("polynomial.py", "grid.py"):
         src = vlib.read_src(name)
         ctx.gen_sources[name] = dict(file="src/WallGo/" + name, sha=vlib.sha(src))
-    proved = ctx.prove()
+    gen_ok = True
+    try:
+        text, facts = gen_poly.generate(vlib.read_src("polynomial.py"))
+        ctx.write("PolyCfg.v", text, sources=dict(
+            file="src/WallGo/polynomial.py", sha=vlib.sha(vlib.read_src("polynomial.py")),
+            facts=facts))
+    except gen_poly.TranslateError as e:
+        ctx.log("fact extraction failed:", e)
+        ctx.broken.append("translator: %s" % e)
+        gen_ok = False
+    if gen_ok:
+        ctx.prove(extra=["PolyCfg.v"])
+    ctx.trusted += ["tools/gen_poly.py (AST fact extractor, fail-closed)",
+                    "Bignums BigQ (machine-integer rationals) in the correspondence files"]
     # --- correspondence: model (Q) vs implementation, exact on the float nodes ---------
     msizes = [(2, 3), (3, 3), (4, 5)] if ctx.quick else [(2, 3), (3, 3), (4, 5), (5, 7),
                                                          (6, 5), (8, 9)]
